@@ -153,7 +153,7 @@ def evaluate(module, case):
 # ---------------------------------------------------------------------------
 
 class Acc:
-    MAX_HASHES = 400_000
+    MAX_HASHES = 1_000_000
 
     def __init__(self, module=None, findings=None, only_relation=None):
         self.module = module
